@@ -10,6 +10,9 @@
 /* ---- DnsResourceRecord and everything derived from it (ARecord ... SoaRecord): the fields the cache reads ---- */
 typedef struct { uint16_t type; uint32_t ttl; uint32_t minimum; } DnsRec;
 typedef struct { const DnsRec *p; size_t n; } iora_rvec;          /* const std::vector<XRecord>& */
+/* witness record: section GSEC (0..11 in declaration order of DnsResult), index GI - both arbitrary.
+ * G_wv / G_wttl: ghost names for "the witness exists" / "its TTL" (bound in the contracts' requires). */
+unsigned GSEC; size_t GI; bool G_wv; uint32_t G_wttl;
 static inline size_t iora_rvec_size(const iora_rvec *v) { return v->n; }
 static inline const DnsRec *iora_rvec_at(const iora_rvec *v, size_t i) { IORA_ASSERT(i < v->n, "record vector index in range"); return &v->p[i]; }
 
